@@ -3,7 +3,7 @@ import itertools, math
 from fractions import Fraction as Fr
 
 Q_LIST = [[], [1], [2], [3], [1, 2], [2, 2]]
-S_LIST = [[], [0], [1], [2], [3], [0, 2], [1, 2], [2, 1], [2, 2]]
+S_LIST = [[], [0], [1], [2], [3], [0, 2], [1, 2], [2, 1], [2, 2], [2, 3], [3, 2]]
 L_LIST = [0, 1, 2]
 
 
@@ -25,7 +25,8 @@ def structures(tier):
         return out
     quick = [d for d in out if _cdim(d) <= 6]
     extra = [{'l': 1, 'q': [3], 's': [2]}, {'l': 2, 'q': [1, 2], 's': [0, 2]}, {'l': 0, 'q': [], 's': [3]},
-             {'l': 1, 'q': [2, 2], 's': [1, 2]}, {'l': 0, 'q': [], 's': [2, 2]}, {'l': 1, 'q': [2], 's': [2, 2]}]
+             {'l': 1, 'q': [2, 2], 's': [1, 2]}, {'l': 0, 'q': [], 's': [2, 2]}, {'l': 1, 'q': [2], 's': [2, 2]},
+             {'l': 0, 'q': [], 's': [2, 3]}]      # two 's' blocks of different orders >= 2 (kernels size work arrays by the largest)
     for e in extra:
         if e not in quick:
             quick.append(e)
